@@ -185,6 +185,12 @@ FamilyConfs(id) ==
     [] id = "core-quick"   -> CoreConfs0 \cup CoreConfs1
     [] id = "core-thorough" -> CoreConfs0 \cup CoreConfs1 \cup CoreConfs2
 
+\* clock steps between calls (TLC configuration files cannot hold negative numbers)
+TimeStepsOf(id) ==
+  CASE id = "one"   -> {1}
+    [] id = "mixed" -> {0, 1, -2}
+    [] id = "wide"  -> {0, 1, 3, -2}
+
 \* alphabets: machine ids 0, 1 and an unknown one (5)
 Glob(E) == {Ext(e, -1) : e \in E}
 Addr(E, Ids) == {Ext(e, i) : e \in E, i \in Ids}
